@@ -98,8 +98,22 @@ def gen_case(rng, tier, g):
                 perms.append(p)
         missing = rng.choice([None, None, None, 'M', 0])
         hdr_arg = None
+        if rng.random() < 0.25 and not ragged:
+            # the documented header= argument: fields reordered, possibly
+            # one dropped, possibly an unknown one added
+            hdr_arg = list(FIELDS[:nf])
+            rng.shuffle(hdr_arg)
+            if len(hdr_arg) > 1 and rng.random() < 0.3:
+                hdr_arg = hdr_arg[:-1]
+            if rng.random() < 0.3:
+                hdr_arg.append('zz')
         presorted = rng.random() < 0.2
     key = _pick_key(rng, nf)
+    if hdr_arg is not None:
+        # the key must be among the output fields, by name
+        names = [f for f in hdr_arg if f != 'zz']
+        key = rng.choice([names[0], names[-1], names[:2]]) \
+            if rng.random() < 0.8 else None
     if perms is not None and (isinstance(key, int) or (
             isinstance(key, list) and any(isinstance(k, int) for k in key))):
         # a positional key names different fields in differently ordered
@@ -107,7 +121,8 @@ def gen_case(rng, tier, g):
         perms = None
     if presorted and ((missing is not None and op == 'mergesort'
                        and any(len(r) < nf for t in tables for r in t[1:]))
-                      or (key is None and perms is not None)):
+                      or (key is None and (perms is not None
+                                           or hdr_arg is not None))):
         # "already sorted by the key" is ambiguous for these inputs
         presorted = False
     n = sum(len(t) - 1 for t in tables)
@@ -269,6 +284,7 @@ def _history(e, case, tables, expected, td, sb, log, probes):
                 sig['missing_arg'] = case.get('missing') is not None
                 sig['presorted'] = bool(case.get('presorted'))
                 sig['short_key_cell'] = _short_key_cell(case, tables)
+                sig['header_arg'] = case.get('header') is not None
             result = outcome('violation', vclass=v.vclass,
                              msg='%s(key=%r, reverse=%r, buffersize=%r, '
                                  'cache=%r): %s'
